@@ -711,12 +711,19 @@ func (c *diskCache) get(ctx context.Context, kind cache.EntryKind, hash string, 
 		return nil, -1, internalErr(err)
 	}
 
+	uncompressedOnDisk := (kind != cache.CAS) || (c.storageMode == casblob.Identity)
+	if uncompressedOnDisk && sizeOnDisk != foundSize {
+		// Compressed CAS blobs are validated via their header below,
+		// everything else must have exactly the announced size.
+		return nil, -1, internalErr(fmt.Errorf("expected %d bytes from the proxy backend, got %d",
+			foundSize, sizeOnDisk))
+	}
+
 	rcf, err := os.Open(blobFile)
 	if err != nil {
 		return nil, -1, internalErr(err)
 	}
 
-	uncompressedOnDisk := (kind != cache.CAS) || (c.storageMode == casblob.Identity)
 	if uncompressedOnDisk {
 		if offset > 0 {
 			_, err = rcf.Seek(offset, io.SeekStart)
